@@ -706,6 +706,14 @@ static J gen_c14 (uint64_t seed, uint64_t idx)
 	bool late_str = g.rng.chance (0.3) ;
 	if (late_str) { J s = mkop ("setstr") ; s ["type"] = SF_STR_COMMENT ; s ["len"] = (long long) g.rng.range (1, 40) ; s ["stream"] = 6 ; wops.push (s) ; }
 	wops.push (mkop ("close")) ;
+	if (f.major == SF_FORMAT_AU)
+	{	// half of the AU files get an annotation field behind the fixed header (the data offset moves): every route has to skip it
+		GenCtx gx (sub_seed (seed, "C14x", idx)) ;
+		if (gx.rng.chance (0.5))
+		{	J c = mkop ("corrupt") ; J ed = J::arr () ; J e = J::obj () ; e ["kind"] = "au_annotation" ; e ["len"] = (long long) gx.rng.pick<int64_t> ({ 1, 8, 46, 1000, 5000 }) ; ed.push (e) ;
+			c ["edits"] = ed ; wops.push (c) ;
+		}
+	}
 	cfg ["wops"] = wops ;
 	J rops = J::arr () ;
 	{ J o = mkop ("open") ; o ["mode"] = "r" ; o ["expect"] = "any" ; rops.push (o) ; }
@@ -849,6 +857,17 @@ static Verdict check_c14 (const J &plan)
 			}
 		}
 		completed ++ ;
+		// embedded read/write: refused by the library (or, if a container ever accepts it, the bytes in front of the sound stay as they are)
+		if (v.findings.empty () && base_opened)
+		{	J prw = c14_concrete (plan, "vio", "embed", false) ;
+			bool first = true ;
+			for (auto &op : prw ["tasks"][0]["ops"].a) if (op.gets ("op") == "open" && op.gets ("mode") == "r" && first) { op ["mode"] = "rw" ; op ["expect"] = "any" ; first = false ; }
+			note_current_plan (prw) ;
+			Result rr = execute (prw) ;
+			v.absorb (rr) ;
+			add_owned (v, "C14", rr, owned) ;
+			v.probes ["embed_rdwr_attempted"] ++ ;
+		}
 		// embedded write (documented containers only)
 		if (v.findings.empty () && emb && base_opened)
 		{	J pw = c14_concrete (plan, "embed", "vio", false) ;
